@@ -6,14 +6,32 @@ Section P.
   Context {B : Type}.
   Implicit Types (rem : list B) (frames : list (list B)).
 
+  Lemma next_frame_spec frames d fs :
+    next_frame frames = Some (d, fs) ->
+    d <> [] /\ concat frames = d ++ concat fs /\ length fs < length frames /\
+    exists skipped, frames = skipped ++ d :: fs /\ Forall (fun f => f = []) skipped.
+  Proof.
+    induction frames as [|f r IH]; cbn [next_frame]; [discriminate|]. destruct f as [|x f].
+    - intros H. destruct (IH H) as [H1 [H2 [H3 [sk [H4 H5]]]]]. split; [exact H1|]. split; [exact H2|]. split; [cbn; lia|].
+      exists ([] :: sk). split; [cbn; f_equal; exact H4|constructor; [reflexivity|exact H5]].
+    - intros H. inversion H; subst. split; [discriminate|]. split; [reflexivity|]. split; [cbn; lia|].
+      exists []. split; [reflexivity|constructor].
+  Qed.
+
+  Lemma next_frame_none frames : next_frame frames = None -> concat frames = [].
+  Proof.
+    induction frames as [|f r IH]; cbn [next_frame]; [reflexivity|]. destruct f; [|discriminate]. intros H. cbn. exact (IH H).
+  Qed.
+
   Lemma ws_read_conserves rem frames b out rem' frames' :
     ws_read rem frames b = Some (out, rem', frames') ->
     out ++ rem' ++ concat frames' = rem ++ concat frames.
   Proof.
     unfold ws_read. destruct rem as [|x r].
-    - destruct frames as [|d fs]; [discriminate|].
+    - destruct (next_frame frames) as [[d fs]|] eqn:E; [|discriminate].
       intros H; inversion H; subst; clear H.
-      cbn [concat app]. rewrite app_assoc, firstn_skipn. reflexivity.
+      destruct (next_frame_spec _ _ _ E) as [_ [Hc _]]. rewrite Hc.
+      cbn [app]. rewrite app_assoc, firstn_skipn. reflexivity.
     - intros H; inversion H; subst; clear H.
       rewrite app_assoc, firstn_skipn. reflexivity.
   Qed.
@@ -45,39 +63,46 @@ Section P.
     intros Hb. destruct b; [lia|]. cbn. discriminate.
   Qed.
 
-  (* A read never consumes more than one frame. *)
+  (* A read never consumes more than one frame that carries bytes (and the empty ones before it). *)
   Lemma ws_read_one_frame rem frames b out rem' frames' :
     ws_read rem frames b = Some (out, rem', frames') ->
-    frames' = frames \/ exists d, frames = d :: frames' /\ rem = [].
+    frames' = frames \/
+    (rem = [] /\ exists skipped d, frames = skipped ++ d :: frames' /\ Forall (fun f => f = []) skipped /\ d <> []).
   Proof.
     unfold ws_read. destruct rem as [|x r].
-    - destruct frames as [|d fs]; [discriminate|].
-      intros H; inversion H; subst. right. exists d. split; reflexivity.
+    - destruct (next_frame frames) as [[d fs]|] eqn:E; [|discriminate].
+      intros H; inversion H; subst. right. split; [reflexivity|].
+      destruct (next_frame_spec _ _ _ E) as [Hd [_ [_ [sk [H1 H2]]]]]. exists sk, d. auto.
     - intros H; inversion H; subst. left; reflexivity.
   Qed.
 
-  (* A read with a non-empty buffer on available data makes progress. *)
+  (* A read with a non-empty buffer that does not fail hands out at least one byte: never "no bytes, no error". *)
+  Lemma ws_read_never_empty rem frames b out rem' frames' :
+    0 < b -> ws_read rem frames b = Some (out, rem', frames') -> out <> [].
+  Proof.
+    intros Hb H. unfold ws_read in H. destruct rem as [|x r].
+    - destruct (next_frame frames) as [[d fs]|] eqn:E; [|discriminate]. inversion H; subst.
+      destruct (next_frame_spec _ _ _ E) as [Hd _]. destruct b; [lia|]. destruct d; [contradiction|]. cbn. discriminate.
+    - inversion H; subst. destruct b; [lia|]. cbn. discriminate.
+  Qed.
+
   Lemma ws_read_progress rem frames b out rem' frames' :
     0 < b ->
     ws_read rem frames b = Some (out, rem', frames') ->
     (rem <> [] \/ exists d fs, frames = d :: fs /\ d <> []) -> out <> [].
-  Proof.
-    intros Hb H Hav. unfold ws_read in H. destruct rem as [|x r].
-    - destruct Hav as [Hc|[d [fs [Hf Hd]]]]; [contradiction|]. subst.
-      inversion H; subst. destruct b; [lia|]. destruct d; [contradiction|]. cbn. discriminate.
-    - inversion H; subst. destruct b; [lia|]. cbn. discriminate.
-  Qed.
+  Proof. intros Hb H _. exact (ws_read_never_empty _ _ _ _ _ _ Hb H). Qed.
 
   (* EOF is reported only when everything has been handed out. *)
   Lemma ws_read_eof rem frames b :
-    ws_read rem frames b = None -> rem = [] /\ frames = [].
+    ws_read rem frames b = None -> rem = [] /\ concat frames = [].
   Proof.
-    unfold ws_read. destruct rem; [|discriminate]. destruct frames; [|discriminate]. auto.
+    unfold ws_read. destruct rem; [|discriminate]. destruct (next_frame frames) as [[d fs]|] eqn:E; [discriminate|].
+    intros _. split; [reflexivity|exact (next_frame_none _ E)].
   Qed.
 
   Lemma ws_run_eof sizes : forall rem frames rs rem' frames',
     ws_run rem frames sizes = (rs, rem', frames') ->
-    In REof rs -> rem' = [] /\ frames' = [].
+    In REof rs -> rem' = [] /\ concat frames' = [].
   Proof.
     induction sizes as [|b sz IH]; intros rem frames rs rem' frames' H Hin; cbn [ws_run] in H.
     - inversion H; subst. contradiction.
@@ -96,8 +121,9 @@ Section P.
     work rem' frames' < work rem frames.
   Proof.
     intros Hb H. unfold ws_read in H. unfold work. destruct rem as [|x r].
-    - destruct frames as [|d fs]; [discriminate|]. inversion H; subst; clear H.
-      cbn [concat length]. rewrite app_length, skipn_length. lia.
+    - destruct (next_frame frames) as [[d fs]|] eqn:E; [|discriminate]. inversion H; subst; clear H.
+      destruct (next_frame_spec _ _ _ E) as [_ [Hc [Hl _]]]. rewrite Hc.
+      cbn [length]. rewrite app_length, skipn_length. lia.
     - inversion H; subst; clear H. rewrite skipn_length. cbn [length]. lia.
   Qed.
 
@@ -105,7 +131,7 @@ Section P.
     Forall (fun b => 0 < b) sizes ->
     work rem frames <= length sizes ->
     ws_run rem frames sizes = (rs, rem', frames') ->
-    rem' = [] /\ frames' = [].
+    rem' = [] /\ concat frames' = [].
   Proof.
     induction sizes as [|b sz IH]; intros rem frames rs rem' frames' Hpos Hw H; cbn [ws_run] in H.
     - inversion H; subst. unfold work in Hw. cbn [length] in Hw.
@@ -134,9 +160,9 @@ Theorem ws_stream_complete {B} (frames : list (list B)) (sizes : list nat) rs re
   delivered rs = concat frames.
 Proof.
   intros H Hc. pose proof (ws_run_conserves _ _ _ _ _ _ H) as Hcons.
-  assert (rem' = [] /\ frames' = []) as [-> ->].
+  assert (rem' = [] /\ concat frames' = []) as [-> Hf].
   { destruct Hc as [Hin|[Hpos Hlen]].
     - eapply ws_run_eof; eauto.
     - eapply ws_run_drains; eauto. unfold work. cbn [length]. lia. }
-  cbn [concat app] in Hcons. rewrite app_nil_r in Hcons. exact Hcons.
+  rewrite Hf in Hcons. cbn [app] in Hcons. rewrite app_nil_r in Hcons. exact Hcons.
 Qed.
